@@ -47,6 +47,7 @@ BOUNDS = {
     "references": "64 detection name subsets x 14 condition forms, 1..2 conditions per rule",
     "uniqueness": "4 rules, id from 3 values (+none), title from 2, file name from 2 names x 2 directories",
     "purity/order/exclusions": "4 rules in all 24 orders x 4 validator orders x before/after conversion x 8 exclusion tables; all built-in validators except the two that download MITRE data",
+    "validator reuse": "one SigmaValidator (all offline validators, built by from_dict) used for two runs over the 4 rules in all 24 orders, before / after conversion; exclusions for one rule id given in 2 of 5 spellings (lower case, upper case, braces, urn:uuid:, without hyphens)",
     "outside": "validators from plugins; more than 4 rules",
 }
 ASSUMPTIONS = ["stub: the validator SET of SigmaValidator is replaced by a list in a chosen order to quantify over its unspecified iteration order"]
@@ -119,7 +120,7 @@ def c19a_refs(mask: int, c1: int, c2: int) -> bool:
 
 
 # ---------------------------------------------------------------- b. uniqueness
-IDS = [None, "11111111-1111-1111-1111-111111111111", "22222222-2222-2222-2222-222222222222", "33333333-3333-3333-3333-333333333333"]
+IDS = [None, "1111aaaa-1111-4111-8111-11111111abcd", "22222222-2222-2222-2222-222222222222", "33333333-3333-3333-3333-333333333333"]
 TITLES = ["A", "B"]
 FILES = ["/r/a.yml", "/r/b.yml", "/s/a.yml", None]
 
@@ -275,7 +276,51 @@ def c19c_pure(perm_i: int, order: int, converted: bool, excl: int) -> bool:
     return fin(ok)
 
 
+def check_reuse(perm_i: int, converted: bool, spell: int) -> bool:
+    """One SigmaValidator object used for two validation runs (before / after conversion): both runs report the
+    same issues; exclusions configured through from_dict under two spellings of one rule id are both in force."""
+    from sigma.validators.base import SigmaRuleValidator  # noqa: F401
+
+    names = InstalledSigmaPlugins.autodiscover().validators
+    names = {n: c for n, c in names.items() if n not in ("attacktag", "d3_fendtag")}
+    perm = list(itertools.permutations(range(NDOCS)))[perm_i]
+    rules = [SigmaRule.from_dict(copy.deepcopy(d)) for d in DOCS]
+    ordered = [rules[i] for i in perm]
+    id1 = IDS[1]
+    other = [id1.upper(), "{" + id1 + "}", "urn:uuid:" + id1, id1.replace("-", "")][spell]
+    conf = {"validators": ["all"], "exclusions": {id1: "dangling_detection", other: ["dangling_condition"]}}
+    v = SigmaValidator.from_dict(copy.deepcopy(conf), names)
+    first = sorted(issue_sig(i, rules) for i in v.validate_rules(iter(ordered)))
+    if converted:
+        TextQueryTestBackend(collect_errors=True).convert(SigmaCollection([SigmaRule.from_dict(copy.deepcopy(d)) for d in DOCS]))
+        for r in rules:
+            try:
+                TextQueryTestBackend().convert_rule(r)
+            except SigmaError:
+                pass
+    second = sorted(issue_sig(i, rules) for i in v.validate_rules(iter(ordered)))
+    if first != second:
+        return False
+    # reference: fresh validator object with the exclusions given directly
+    classes = set(all_validator_classes())
+    want = sorted(issue_sig(i, rules) for i in run_validators(ordered, classes, 0, {UUID(id1): {DanglingDetectionValidator, DanglingConditionValidator}}))
+    return first == want
+
+
+def c19c_reuse(perm_i: int, converted: bool, spell: int) -> bool:
+    """
+    pre: 0 <= perm_i < 24
+    pre: 0 <= spell < 4
+    post: _
+    """
+    p, c, sp = sel(perm_i, 24), selb(converted), sel(spell, 4)
+    with concrete_section():
+        ok = check_reuse(p, c, sp)
+    return fin(ok)
+
+
 OBLIGATIONS = [
+    Ob("c19c_reuse", {}, 600),
     Ob("c19a_refs", {"TWO": 0}, 600),
     Ob("c19a_refs", {"TWO": 1}, 3000, tier="thorough"),
 ] + [Ob("c19b_unique", {"MODE": 0, "I0": i}, 900) for i in range(4)] + [
